@@ -24,19 +24,24 @@ call sequences starting from `RcDom::default()`):
   node, and exactly when detaching / re-parenting breaks it;
 * `C20_attrs`, `C20_attrs_no_overwrite`, `C20_reparent`, `C20_template_contents`,
   `C20_remove_from_parent` — the other operations;
-* `C20_before_sibling_position_partial` + `C20_witness_before_sibling` — `append_before_sibling`
-  puts the node immediately before the sibling *unless the node already is an earlier child of the
-  same parent* (then rcdom uses a stale index: defect found by this property);
-* `C20_clone_asCode_noop`, `C20_clone_option_partial`, `C20_witness_clone_option`,
-  `C20_clone_option_fixed_example` — option → selectedcontent mirroring: rcdom never mirrors
-  (DESIGN 1.3 item 11: defect); it agrees with the standard exactly when the standard has nothing to do;
+* `C20_before_sibling_position` — the repaired `append_before_sibling` (/repo 394a5e0) puts the node
+  immediately before the sibling, whatever old parent it had; `C20_before_sibling_position_partial`
+  + `C20_witness_before_sibling` record the pinned tree's behaviour (stale index when the node was
+  an earlier child of the same parent: defect found by this property, now repaired);
+* `C20_clone_option_partial`, `C20_clone_option_nothing`, `C20_clone_option_fixed_example` — the
+  repaired option → selectedcontent mirroring (/repo ebdbd68) preserves the invariant and replaces the
+  selectedcontent's children by fresh copies of the option's children (top level proved; deep
+  structure below the first level carried by the correspondence); `C20_clone_asCode_noop`,
+  `C20_clone_option_pinned_partial`, `C20_witness_clone_option` record the pinned tree's behaviour
+  (never mirrored, DESIGN 1.3 item 11);
 * `C20_serialize_preorder`, `C20_serialize_each_node_once` — rcdom's `Serialize` visits every node of
   a tree exactly once, in document order, and never panics / runs out of the stated fuel.
 
-Modelled but not proved: that no call within the contract panics (the correspondence's valid
-families never panic; `nearestSelectLoop`/`bfsAsCode` fuel adequacy); the deep-copy correctness and
-`Inv` preservation of `Dom.cloneOptionInto .fixed` (validated against the Python reference and a
-patched scratch copy of rcdom, and on `C20_clone_option_fixed_example`); `Rc`/`Weak` lifetimes.
+Modelled but not proved here: that no call within the contract panics (see `H5V.Props.C05`; the
+correspondence's valid families never panic); that the copies made by `Dom.cloneOptionInto .fixed`
+are deep copies below the first level, and "no adjacent text siblings" across that call (validated
+against RcDom and the independent Python reference on every `mc` case, and on
+`C20_clone_option_fixed_example`); `Rc`/`Weak` lifetimes / `Drop`.
 -/
 namespace H5V.Props.C20
 open H5V.Model.Dom H5V.Lemmas.Dom
@@ -59,18 +64,16 @@ structure Inv (d : Dom) : Prop where
 theorem Inv.parentLinksConsistent {d : Dom} (h : Inv d) : ParentLinksConsistent d :=
   ⟨h.wf.links, h.wf.nodup⟩
 
-/-- the model as it stands follows the code for option cloning (`cloneVariant = .asCode`); the general
-theorems hold for either value of `beforeSiblingVariant`.  After `cloneVariant` is flipped this line
-(and only this line of the general theorems) stops compiling; the `decide`d witness theorems of a
-flipped switch then state something false and have to go, too. -/
-theorem apply_eq_asCode (d : Dom) (op : SinkOp) :
-    d.apply op = d.applyV .asCode Dom.beforeSiblingVariant op := rfl
+/-- `Dom.apply` is `Dom.applyV` at the two switches of `H5V/Model/Dom.lean` (since /repo ebdbd68 and
+394a5e0: `.fixed`, `.detachFirst`); the general theorems below hold for every value of both. -/
+theorem apply_eq (d : Dom) (op : SinkOp) :
+    d.apply op = d.applyV Dom.cloneVariant Dom.beforeSiblingVariant op := rfl
 
 /-- **Every sink call preserves the invariant** (all arenas, all calls within the contract). -/
 theorem C20_parent_links_step {d d' : Dom} {op : SinkOp} {out : Output} (hi : Inv d)
     (hc : Contract d op) (h : d.apply op = .ok (d', out)) : Inv d' := by
-  rw [apply_eq_asCode] at h
-  exact ⟨hi.wf.applyV hc h, hi.kinds.applyV hi.wf hc h⟩
+  rw [apply_eq] at h
+  exact ⟨hi.wf.applyV hi.kinds hc h, hi.kinds.applyV hi.wf hc h⟩
 
 /-- a contract-abiding run: every call satisfies the contract in the state it is made in and
 returns normally -/
@@ -217,7 +220,7 @@ exactly when that breaks it). -/
 theorem C20_no_adjacent_text_step {d d' : Dom} {op : SinkOp} {out : Output} (hi : Inv d)
     (hn : NoAdjacentText d) (hc : Contract d op) (h : d.apply op = .ok (d', out))
     (hop : NeverDetaches d op) : NoAdjacentText d' := by
-  rw [apply_eq_asCode] at h
+  rw [apply_eq] at h
   exact hn.applyV hi.wf hc h hop
 
 /-- `remove_from_parent` breaks "no adjacent text siblings" exactly when the previous and the next
@@ -362,11 +365,12 @@ theorem C20_template_contents (d : Dom) (name : QualName) (attrs : List Attr) (i
 
 /-! ## `append_before_sibling` with a node -/
 
-/-- The node ends up immediately before the sibling — **proved for a node that is not already a child
-of the sibling's parent** (what html5ever does: it detaches first).  `_partial`: the full statement
-(any node the contract allows, "new_node may have an old parent") is false when the node is an
-*earlier* child of the same parent, see `C20_witness_before_sibling`; for a *later* child it holds
-(covered by the correspondence cases, not proved). -/
+/-- The pinned tree's `append_before_sibling` (`Dom.appendBeforeSibling` = `appendBeforeSiblingV .asCode`)
+puts the node immediately before the sibling — **proved for a node that is not already a child of the
+sibling's parent** (what html5ever does: it detaches first).  `_partial`: for that code the full
+statement is false when the node is an *earlier* child of the same parent
+(`C20_witness_before_sibling`).  The repaired code satisfies the full statement:
+`C20_before_sibling_position`. -/
 theorem C20_before_sibling_position_partial {d d' : Dom} {s c : Id}
     (h : d.appendBeforeSibling s (.node c) = .ok d') (hnot : d.parentOf c ≠ d.parentOf s) :
     ∃ P l1 l2, d.parentOf s = some P ∧ d.childrenOf P = l1 ++ s :: l2 ∧
@@ -391,17 +395,56 @@ theorem C20_before_sibling_position_partial {d d' : Dom} {s c : Id}
   refine ⟨P, (d.childrenOf P).take i, (d.childrenOf P).drop (i + 1), hpar, hsplit, ?_, by rw [hp]; simp⟩
   rw [hch, hsame]; simp [insertAt, hdrop]
 
-/-- the gap: children `[b, c]`, `append_before_sibling(c, b)` leaves `b` *after* `c`
-(`get_parent_and_index` is evaluated before `remove_from_parent(&child)`, lib.rs:450/478/481) -/
+/-- **The repaired `append_before_sibling`** (/repo 394a5e0, `appendBeforeSiblingV .detachFirst`):
+for every node the contract allows (it "may have an old parent", any parent), the node is first
+taken out of its old parent's child list (`d1`), and ends up immediately before the sibling. -/
+theorem C20_before_sibling_position {d d' : Dom} {s c : Id} (hi : Inv d)
+    (hc : Contract d (.appendBeforeSibling s (.node c)))
+    (h : d.appendBeforeSiblingV .detachFirst s (.node c) = .ok d') :
+    ∃ d1 P l1 l2, d.removeFromParent c = .ok d1 ∧ d.parentOf s = some P ∧
+      d1.childrenOf P = l1 ++ s :: l2 ∧ c ∉ l1 ++ s :: l2 ∧
+      d'.childrenOf P = l1 ++ c :: s :: l2 ∧ d'.parentOf c = some P := by
+  simp only [Dom.appendBeforeSiblingV, Dom.preDetach, bind, Except.bind] at h
+  cases hr : d.removeFromParent c with
+  | error e => simp [hr] at h
+  | ok d1 =>
+    simp only [hr] at h
+    have hc' : d.contractAppendBeforeSibling s (.node c) = true := by simpa [Contract, Dom.contractOk] using hc
+    have hsc : s ≠ c := by
+      intro e; subst e
+      unfold Dom.contractAppendBeforeSibling at hc'
+      cases hps : d.parentOf s with
+      | none => simp [hps] at hc'
+      | some P => simp [hps] at hc'
+    have hw1 := hi.wf.removeFromParent hr
+    have hc0 : d1.parentOf c = none := removeFromParent_parent_none hr
+    have hps1 : d1.parentOf s = d.parentOf s := by
+      rcases removeFromParent_ok hr with ⟨_, he⟩ | ⟨_, _, _, _, hp, _⟩
+      · rw [he]
+      · rw [hp]; simp [hsc]
+    obtain ⟨P, l1, l2, hP, hl, hl', hpc⟩ := C20_before_sibling_position_partial h (by
+      rw [hc0]; intro e
+      obtain ⟨P, _, hP, _⟩ := appendBeforeSibling_ok h
+      rw [hP] at e; cases e)
+    refine ⟨d1, P, l1, l2, rfl, by rw [← hps1]; exact hP, hl, ?_, hl', hpc⟩
+    intro hm
+    rw [← hl] at hm
+    have := (hw1.links c P).mpr hm
+    rw [hc0] at this; cases this
+
+/-- the gap of the pinned tree (before /repo 394a5e0): children `[b, c]`, `append_before_sibling(c, b)`
+left `b` *after* `c` (`get_parent_and_index` was evaluated before `remove_from_parent(&child)`);
+the repaired order gives `[b, c]` -/
 def exReinsert : Dom := (runCheck Dom.new
   [ .createElement (qn ['a']) [] {}, .createElement (qn ['b']) [] {}, .createElement (qn ['c']) [] {},
     .append 0 (.node 1), .append 1 (.node 2), .append 1 (.node 3) ]).getD Dom.new
 
 theorem C20_witness_before_sibling :
     exReinsert.childrenOf 1 = [2, 3] ∧ Contract exReinsert (.appendBeforeSibling 3 (.node 2)) ∧
-    ∃ d', exReinsert.appendBeforeSibling 3 (.node 2) = .ok d' ∧ d'.childrenOf 1 = [3, 2] ∧
-      ¬ ∃ l1 l2, d'.childrenOf 1 = l1 ++ 2 :: 3 :: l2 := by
-  refine ⟨by decide, by decide, _, rfl, by decide, ?_⟩
+    (∃ d', exReinsert.appendBeforeSiblingV .asCode 3 (.node 2) = .ok d' ∧ d'.childrenOf 1 = [3, 2] ∧
+      ¬ ∃ l1 l2, d'.childrenOf 1 = l1 ++ 2 :: 3 :: l2) ∧
+    (∃ d', exReinsert.appendBeforeSiblingV .detachFirst 3 (.node 2) = .ok d' ∧ d'.childrenOf 1 = [2, 3]) := by
+  refine ⟨by decide, by decide, ⟨_, rfl, by decide, ?_⟩, ⟨_, rfl, by decide⟩⟩
   rintro ⟨l1, l2, h⟩
   have h' : ([3, 2] : List Id) = l1 ++ 2 :: 3 :: l2 := by
     rw [← h]; decide
@@ -413,20 +456,21 @@ theorem C20_witness_before_sibling :
 /-! ## option → selectedcontent -/
 
 /-- **What the standard demands** of `maybe_clone_an_option_into_selectedcontent` is
-`Dom.maybeCloneOption .fixed`: with `select` = the option's nearest ancestor select
-(`Dom.nearestAncestorSelect`), when `select` exists and is not `multiple`, the option has a `selected`
-attribute and `select` has a `selectedcontent` descendant, the children of the *first such descendant in
-tree order* are replaced by deep copies of the option's children (`Dom.cloneOptionInto .fixed`:
-copies point to their copied parents, old children are detached, template contents are copied).
+`Dom.maybeCloneOption .fixed` (what rcdom does since /repo ebdbd68): with `select` = the option's
+nearest ancestor select (`Dom.nearestAncestorSelect`), when `select` exists and is not `multiple`, the
+option has a `selected` attribute and `select` has a `selectedcontent` descendant, the children of the
+*first such descendant in tree order* are replaced by deep copies of the option's children
+(`Dom.cloneOptionInto .fixed`).
 
-**What rcdom does** (`.asCode`): nothing, ever — the search loop tests the `select` itself. -/
+**What the pinned tree did** (`.asCode`, kept as a record): nothing, ever — the search loop tested
+the `select` itself. -/
 theorem C20_clone_asCode_noop {d d' : Dom} {o : Id} (h : d.maybeCloneOption .asCode o = .ok d') : d' = d :=
   maybeCloneOption_asCode_eq h
 
-/-- `_partial`: rcdom agrees with the standard on exactly those calls where the standard has nothing
-to mirror (`cloneTarget .fixed = none`); what is missing is every call where it has
-(`C20_witness_clone_option`). -/
-theorem C20_clone_option_partial {d : Dom} {o : Id} (hspec : d.cloneTarget .fixed o = .ok none) :
+/-- `_partial` (pinned tree): the old code agreed with the standard on exactly those calls where the
+standard has nothing to mirror (`cloneTarget .fixed = none`); what was missing is every call where it
+has (`C20_witness_clone_option`). -/
+theorem C20_clone_option_pinned_partial {d : Dom} {o : Id} (hspec : d.cloneTarget .fixed o = .ok none) :
     d.maybeCloneOption .fixed o = .ok d ∧ ∀ d', d.maybeCloneOption .asCode o = .ok d' → d' = d := by
   refine ⟨?_, fun d' h => maybeCloneOption_asCode_eq h⟩
   simp [Dom.maybeCloneOption, bind, Except.bind, hspec]
@@ -439,8 +483,35 @@ def exSelect : Dom := (runCheck Dom.new
     .append 5 (.text ['A']), .createElement (qn ['b']) [] {}, .append 5 (.node 7), .append 7 (.text ['B'])
   ]).getD Dom.new
 
-/-- the gap (DESIGN 1.3 item 11): the standard mirrors the option into the selectedcontent (node 3),
-rcdom leaves the tree as it was -/
+/-- **The repaired mirroring** (`.fixed`): whenever the call returns, the invariant holds again, and
+at the top level the standard's "replace all with the copies" happened: the selectedcontent's
+children are fresh nodes, one per child of the option, in order, with the same data (template
+link aside); they point to the selectedcontent; its old children are detached; every other node
+that existed keeps data, children and parent.
+`_partial`: *not proved* is that the copies are deep copies below the first level (each copy's
+children are again copies of the original's children, template contents included) — carried by the
+correspondence (model = RcDom on every `mc` case), the independent Python reference, and
+`C20_clone_option_fixed_example`. -/
+theorem C20_clone_option_partial {d d' : Dom} {o sc : Id} (hi : Inv d)
+    (ht : d.cloneTarget .fixed o = .ok (some sc)) (h : d.maybeCloneOption .fixed o = .ok d') :
+    Inv d' ∧
+    Pairs (fun c k => (d'.dataOf k).map eraseTc = (d.dataOf c).map eraseTc) (d.childrenOf o) (d'.childrenOf sc) ∧
+    (∀ k ∈ d'.childrenOf sc, d.size ≤ k ∧ d'.parentOf k = some sc) ∧
+    (∀ c ∈ d.childrenOf sc, d'.parentOf c = none) ∧
+    (∀ y, y < d.size → d'.dataOf y = d.dataOf y) ∧
+    (∀ y, y < d.size → y ≠ sc → d'.childrenOf y = d.childrenOf y) ∧
+    (∀ y, y < d.size → y ∉ d.childrenOf sc → d'.parentOf y = d.parentOf y) := by
+  simp only [Dom.maybeCloneOption, bind, Except.bind, ht] at h
+  obtain ⟨a, b, r⟩ := cloneOptionInto_fixed_spec hi.wf hi.kinds (cloneTarget_fixed_element ht) h
+  exact ⟨⟨a, b⟩, r⟩
+
+/-- … and when the standard has nothing to mirror, nothing happens -/
+theorem C20_clone_option_nothing {d : Dom} {o : Id} (ht : d.cloneTarget .fixed o = .ok none) :
+    d.maybeCloneOption .fixed o = .ok d := by
+  simp [Dom.maybeCloneOption, bind, Except.bind, ht]
+
+/-- the gap of the pinned tree (DESIGN 1.3 item 11, before /repo ebdbd68): the standard mirrors the
+option into the selectedcontent (node 3), the old code left the tree as it was -/
 theorem C20_witness_clone_option :
     Contract exSelect (.maybeCloneAnOptionIntoSelectedcontent 5) ∧
     exSelect.cloneTarget .fixed 5 = .ok (some 3) ∧ exSelect.cloneTarget .asCode 5 = .ok none ∧
